@@ -73,7 +73,9 @@ def main(pid):
                                          "matched": "".join(map(chr, c["mt"])), "pin": "".join(map(chr, c["pin"])), "poff": c["poff"],
                                          "meta": [(w["f"], "".join(map(chr, w["v"])), w["off"]) for w in c["w"]]} for c in o["cites"]]},
                          {"clause": cl, "tok": it.get("tok"), "markup": "markup" in it,
-                          "shape": re.sub(r"[A-Za-z]+", "w", re.sub(r"\d+", "9", text))[:50]})
+                          "shape": re.sub(r"[A-Za-z]+", "w", re.sub(r"\d+", "9", text))[:50]},
+                         judge=vlib.J("Trace_Extract", "Trace_Extract.cfg", o),
+                         rerun=vlib.R("drv_extract", "run_offsets", it, hs_cache=True))
     # step-level conformance of Extract.tla: match_on_tokens events (guarded hook) bind the model's
     # matcher results, TLC recomputes every span and every window length
     sdocs = [d for d in plain if "\x00" not in d][:: (2 if thorough else 5)]
